@@ -43,7 +43,7 @@ def main():
         })
     m = {
         'version': 1,
-        'setup_cmd': 'cd lean && lake build I18n driver',
+        'setup_cmd': './setup.sh',
         'hooks': {
             'guard': 'I18NSPECTOR_VERIF',
             'enable': 'no hooks are needed: the harness observes the real code in-process (subclassing, patching in the harness only)',
